@@ -9,7 +9,7 @@ VERIF = os.path.dirname(os.path.dirname(os.path.abspath(__file__)))
 
 def main():
     old = {}
-    for fn in ('old_checks.log', 'old_checks_round2.log', 'old_checks_round3.log', 'old_checks_round4.log', 'old_checks_round5.log', 'old_checks_round6.log', 'old_checks_round7.log', 'old_checks_round8.log', 'old_checks_round9.log'):
+    for fn in ('old_checks.log', 'old_checks_round2.log', 'old_checks_round3.log', 'old_checks_round4.log', 'old_checks_round5.log', 'old_checks_round6.log', 'old_checks_round7.log', 'old_checks_round8.log', 'old_checks_round9.log', 'old_checks_round10.log'):
         p = os.path.join(VERIF, 'seeded', fn)
         if not os.path.exists(p):
             continue
